@@ -271,7 +271,9 @@ Definition expand_select : Z -> res bool :=
    (maxStreams 2 -> 3 for a signature); when streamId+1 >= maxStreams the gzip
    reader is left in multistream mode and swallows every remaining member as the
    data section. Result: len(gzipStreams). *)
-Inductive mkind := MSign | MPlain | MEmpty | MBad.
+Inductive mkind := MSign | MPlain | MEmpty | MBad
+  | MZero      (* session 4: a valid gzip stream holding a tar end-of-archive marker (two zero blocks) and nothing else *)
+  | MJunk.     (* session 4: a valid gzip stream whose content is no tar (too short for a header, or a header that does not parse) *)
 Definition mkind_bad (m : mkind) : bool := match m with MBad => true | _ => false end.
 Fixpoint expand_loop (ms : list mkind) (garbage : bool) (first : option mkind)
   (stream_id : Z) (maxs : Z) (count : nat) : res nat :=
@@ -295,9 +297,24 @@ Fixpoint expand_loop (ms : list mkind) (garbage : bool) (first : option mkind)
         if mkind_bad m then Err
         else expand_loop ms' garbage (match first with None => Some m | f => f end) sid maxs' (S count)
   end.
+(* session 4: what the tar readers behind the loop make of the sections. The control section is one
+   member (index n-2), indexed by tarfs.New; the data section is the concatenation of every member from
+   index n-1 on (multistream), read by checkSums and indexed by tarfs.New. A tar reader goes through the
+   entries of MSign / MPlain members (written without an end marker), reads nothing from MEmpty, stops
+   with success at an end marker (MZero: whatever follows is never looked at) and fails on MJunk. *)
+Fixpoint tar_stream_ok (ms : list mkind) : bool :=
+  match ms with
+  | [] => true
+  | MZero :: _ => true
+  | MJunk :: _ => false
+  | _ :: r => tar_stream_ok r
+  end.
+Definition sections_ok (ms : list mkind) (n : nat) : bool :=
+  tar_stream_ok (firstn 1 (skipn (n - 2) ms)) && tar_stream_ok (skipn (n - 1) ms).
 Definition expand_apk (ms : list mkind) (garbage : bool) : res bool :=
   do n <- expand_loop ms garbage None (-1)%Z (Z.of_nat (fst expand_max_streams)) O;
-  expand_select (Z.of_nat n).
+  do signed <- expand_select (Z.of_nat n);
+  if sections_ok ms n then Ok signed else Err.
 
 (* ---- expandapk/split.go Split, apk/package.go ParsePackageInfo -----------------------------
    Split returns (optional signature) + control + rest; ParsePackageInfo reads split[0], and
